@@ -28,7 +28,7 @@ from harness.extract import ExtractError, HEADER, _parse, _lean_str
 
 ID = "C02"
 GEN = ["Generators", "ExitPaths"]
-LEAN_PROPS = ["AasVerif.Props.C02", "AasVerif.Props.C03Exit"]
+LEAN_PROPS = ["AasVerif.Props.C02", "AasVerif.Props.C03Exit", "AasVerif.Props.C02Cores"]
 
 TARGETS = ("cpp", "csharp", "golang", "java", "jsonschema", "python", "typescript", "xsd")
 ENTRIES = TARGETS + ("smoke",)
